@@ -32,8 +32,8 @@ typedef __int128 wide;
 #define SM_TIER 1
 #endif
 
-/* must-fail twin (-DTWIN): the postconditions of the FIRST tuple of each section are negated and must fail; all others
- * stay as they are (each failing assertion costs the solver one more call on the whole batch) */
+/* must-fail twin (-DTWIN): the postconditions of the FIRST tuple of each section are negated and must fail; the other
+ * tuples are not compiled into the twin or the reach variant (sm_checks.inc; they carry no reach assertions): every tuple is checked by the main variant */
 #ifdef TWIN
 #define ENS(c, msg) __CPROVER_assert(twin_here ? !(c) : (c), "ensures: TWIN (negated for the first tuple of each section) " msg)
 #define TWIN_ON twin_here = 1;
